@@ -110,6 +110,58 @@ class _Base(object):
   def close(self):
     pass
 
+  # -- the listener environment (the spec's `raw` / `lis` argument)
+  def with_listeners(self, mode, event_names, fn, must_fire=True):
+    """Run fn() while OTHER components listen to the given events on the
+    nexus and/or on the connection and behave as `mode` says:
+      none                         nobody listens
+      listen                       passive listeners on nexus and connection
+      halt_nexus / halt_con        the listener there returns EventHalt
+      raise_nexus / raise_con      the listener there raises
+      remove_nexus / remove_con    the listener there unsubscribes itself (EventRemove)
+    Listeners exist for this one step only.  When the listener the mode is
+    about is never invoked the environment is vacuous: machinery failure."""
+    if mode in (None, "none"):
+      return fn()
+    from pox.lib.revent import EventHalt, EventRemove
+    fired = {"nexus": 0, "con": 0}
+
+    def make(level, what):
+      def h(event):
+        fired[level] += 1
+        if what == "halt":
+          return EventHalt
+        if what == "remove":
+          return EventRemove
+        if what == "raise":
+          raise RuntimeError("C17 environment: listener raises")
+        return None
+      return h
+
+    if mode == "listen":
+      plan = [("nexus", "listen"), ("con", "listen")]
+    else:
+      what, level = mode.split("_")
+      plan = [(level, what)]
+    added = []
+    for level, what in plan:
+      src = self.env.nexus if level == "nexus" else self.con
+      for name in event_names:
+        h = make(level, what)
+        src.addListenerByName(name, h)
+        added.append((src, h))
+    try:
+      return fn()
+    finally:
+      for src, h in added:
+        try:
+          src.removeListener(h)
+        except Exception:
+          pass
+      if must_fire and not any(fired[level] for level, _ in plan):
+        raise Machinery("environment %s: no %s listener was ever invoked - the listener dimension is vacuous"
+                        % (mode, "/".join(event_names)))
+
 
 # --------------------------------------------------------------------------
 # PortView
@@ -248,16 +300,21 @@ class PortAdapter(_Base):
     if a == "EarlyStatus":
       self.feed(rb.port_status(REASON[args["r"]], self.port_bytes(args["p"], args["rec"])))
       return {"x": 0}
+    lis = args.get("lis", "none")
     if a == "Barrier":
-      self.feed(rb.barrier_reply(self.barrier))
+      # the port-status events of the early notifications are raised now (if there were any)
+      self.with_listeners(lis, ["PortStatus"], lambda: self.feed(rb.barrier_reply(self.barrier)),
+                          must_fire=False)
       if not self.env.connected():
         return {"not_connected": True}
       return self.observe()
     if a == "Status":
-      self.feed(rb.port_status(REASON[args["r"]], self.port_bytes(args["p"], args["rec"]), xid=self.n))
+      data = rb.port_status(REASON[args["r"]], self.port_bytes(args["p"], args["rec"]), xid=self.n)
+      self.with_listeners(lis, ["PortStatus"], lambda: self.feed(data))
       return self.observe()
     if a == "Features":
-      self.feed(rb.features_reply(self.dpid, ports=self.ports_bytes(args["ports"]), xid=self.n))
+      data = rb.features_reply(self.dpid, ports=self.ports_bytes(args["ports"]), xid=self.n)
+      self.with_listeners(lis, ["FeaturesReceived"], lambda: self.feed(data))
       return self.observe()
     raise ValueError(a)
 
@@ -288,6 +345,8 @@ class PortAdapter(_Base):
       return sig
     if st["a"] in ("Status", "EarlyStatus"):
       sig["reason"] = st["args"]["r"]
+    if st["args"].get("lis", "none") != "none":
+      sig["listeners"] = st["args"]["lis"]
     diffs = []
     kinds = set()
     for side in ("cur", "orig"):
@@ -432,7 +491,8 @@ class StatsAdapter(_Base):
       self.cur_x = args["x"]
       body = b"".join(entry_bytes(t, k, g, args["first"] + j) for j in range(args["n"]))
       flags = 1 if args["more"] else 0          # OFPSF_REPLY_MORE, the only flag OpenFlow 1.0 defines
-      self.feed(rb.stats_reply(STYPE[t], body, flags=flags, xid=self.xids[args["x"]]))
+      data = rb.stats_reply(STYPE[t], body, flags=flags, xid=self.xids[args["x"]])
+      self.with_listeners(args.get("raw", "none"), ["RawStatsReply"], lambda: self.feed(data))
     elif a == "Other":
       self.feed(self.other(args["kind"]))
     else:
@@ -470,6 +530,8 @@ class StatsAdapter(_Base):
     if st["a"] == "Part":
       sig["type"] = st["args"]["t"]
       sig["final"] = not st["args"]["more"]
+      if st["args"].get("raw", "none") != "none":
+        sig["raw_listeners"] = st["args"]["raw"]
     else:
       sig["kind"] = st["args"]["kind"]
     if not isinstance(obs, dict) or "con" not in obs:
